@@ -257,3 +257,6 @@ def run(ctx):
     r16_1(ctx, J)
     r16_2(ctx, J)
     r16_3(ctx, J)
+    # ... and every object is rebuilt from its own record
+    from .C16 import r16_8
+    r16_8(ctx, J)
